@@ -16,7 +16,9 @@ ZeroedStr == <<122,101,114,111,101,100,32,101,120,116,101,110,100,101,100,32,107
 \* keys: function from ids to [k, probe]
 KeysOf(all) == [id \in {all[j].id : j \in 1..Len(all)} |->
                   LET r == CHOOSE x \in {all[j] : j \in 1..Len(all)} : x.id = id
-                  IN [k |-> XKeyOfPayload(r.ser), probe |-> r.probe]]
+                  \* a key the harness holds as live but whose String() is no longer a 78-byte payload (it was
+                  \* erased through another reference) is logged as the zeroed key: the frame condition reports it
+                  IN [k |-> IF Len(r.ser) = 78 THEN XKeyOfPayload(r.ser) ELSE ZeroedKey, probe |-> r.probe]]
 UpdHD(s, e) ==
   IF e.op = "HDConfig" THEN [s EXCEPT !.cfg = [nets |-> e.nets, hdmap |-> e.hdmap]]
   ELSE IF "all" \in DOMAIN e THEN [s EXCEPT !.keys = KeysOf(e.all)]
@@ -102,6 +104,9 @@ VerdictHD(p, e, s) ==
             ELSE IF e.pub # pk THEN V("wif-public-key", Cut(pk), Cut(e.pub))
             ELSE IF \E n \in 1..Len(p.cfg.nets) : e.fornet[n] # (p.cfg.nets[n].wif = e.netid) THEN V("wif-network", e.netid, e.fornet)
             ELSE OK
+    [] e.op = "PartsPurity" ->
+         \* C15: a key built from caller-owned slices never writes to them (nor behind them)
+         IF e.argmod THEN V("argument-memory-modified", "unchanged", e.which) ELSE OK
     [] e.op = "WifMutate" ->
          \* the value is a plain struct: after the flag is flipped the text and the public key follow the new flag
          LET exp1 == WifString(e.env, e.netid, e.key, e.compressed)
